@@ -4,7 +4,7 @@ from __future__ import annotations
 import ast
 
 from ..cfg import CFG, explore_defs, witness
-from ..engine import AnalysisError, PropertySpec, norm
+from ..engine import AnalysisError, MechanismMissing, PropertySpec, norm
 from ..pyutil import call_name, calls, is_name, walk_local
 from .c01 import covers, handler_classes
 
@@ -55,7 +55,7 @@ def r26_1(ctx, rep):
     incs = {x.id for x in cfg.nodes if _is_inc(x)}
     logs = [x for x in cfg.nodes if _is_log_error(x)]
     if len(logs) < 6:
-        raise AnalysisError(R, "fewer than 6 log.error sites found in main()")
+        raise MechanismMissing(R, "fewer than 6 log.error sites found in main()")
     for lg in logs:
         # innermost enclosing for-loop over models/paths/options: its iter node
         loop = None
@@ -161,7 +161,7 @@ def r26_2(ctx, rep):
                     cfg_ok = True
                 rep.ob(R, CLI + ":main", "call " + norm(c)[:60], cfg_ok, "a False result of translate() must increment the error counter")
     if n < 1:
-        raise AnalysisError(R, "no call to translate() found in main()")
+        raise MechanismMissing(R, "no call to translate() found in main()")
 
 
 @SPEC.rule(
@@ -208,7 +208,7 @@ def r26_3(ctx, rep):
                            "an exception escaping %s() for one model ends the loop: later models are never processed and the exit "
                            "status is a traceback instead of the error count" % cn)
     if n < 3:
-        raise AnalysisError(R, "fewer than 3 per-model worker calls found")
+        raise MechanismMissing(R, "fewer than 3 per-model worker calls found")
 
 
 @SPEC.rule("R26.4", "the process exit status is main()'s return value: the __main__ block passes it to sys.exit; argument errors use argparse's error() (exit code 2)")
